@@ -212,7 +212,7 @@ func (c *x14) run(f func() string) string {
 	select {
 	case r := <-ch:
 		return r
-	case <-time.After(2 * time.Second):
+	case <-time.After(10 * time.Second):
 		return "blocked"
 	}
 }
@@ -783,7 +783,15 @@ func TestVerifC14(t *testing.T) {
 	w := bufio.NewWriterSize(f, 1<<20)
 	defer w.Flush()
 
-	db := OpenForTesting(t, t.TempDir())
+	// The kvdb backend fsyncs on every commit; prefer a memory-backed
+	// directory so that the wall time (and the "blocked" time-out below)
+	// does not depend on the load of the machine's disk.
+	dbDir := t.TempDir()
+	if d, err := os.MkdirTemp("/dev/shm", "c14_persist_"); err == nil {
+		dbDir = d
+		t.Cleanup(func() { os.RemoveAll(d) })
+	}
+	db := OpenForTesting(t, dbDir)
 	cache, err := NewHeightHintCache(CacheConfig{QueryDisable: false}, db.Backend)
 	if err != nil {
 		t.Fatal(err)
